@@ -48,7 +48,10 @@ def cases(tier, seed):
         base = [('leaf', n, 0) for n in FAM[fam]]
         progs = list(base) + [('T', b) for b in base] + [('I', ('leaf', n, 0)) for n in c01.INV_OK[fam]]
         progs += [('neg', b) for b in base[:4]] + [('kmul', b, 0) for b in base[:6]]
-        allp = [e for e in c01.gen_programs(fam, tier, seed)]
+        from ..catalogue import has_tag, leaf_names
+        # lazy inverses of *symbolic* positive diagonals inside longer chains make the trilinear adjoint query non-linear in the
+        # stub atoms (z3 answers unknown): they stay in C01/C06, here only short ones are kept
+        allp = [e for e in c01.gen_programs(fam, tier, seed) if not (has_tag(e, ('lazyI',)) and len(leaf_names(e)) > 2)]
         rnd.shuffle(allp)
         progs += allp[: (len(allp) if tier == 'thorough' else 260)]
         seen = set()
